@@ -52,7 +52,7 @@ Change(prevText, currText, prevTags, currTags) ==
   ELSE "none"
 
 \* the start of a cont: the output of the previous line is dropped
-BeginCont(e) == [e EXCEPT !.m.out = <<>>]
+BeginCont(e) == [e EXCEPT !.m.out = <<>>, !.m.dirty = {}, !.m.touched = {}]
 
 \* one iteration of the continue loop; done: the line is complete (rewound to the newline)
 SingleStep(e) ==
